@@ -399,6 +399,13 @@ func c11Rules(c *Ctx) {
 	add("todo-false:same-getter-two-services", "services:\n  a:\n    value: \"V\"\n    todo: false\n    getter: \"GetIt\"\n  b:\n    value: \"V\"\n    todo: false\n    getter: \"GetIt\"\n", false, "a", "b")
 	add("todo-false:same-getter-one-explicit", "services:\n  a:\n    value: \"V\"\n    getter: \"GetIt\"\n  b:\n    value: \"V\"\n    todo: false\n    getter: \"GetIt\"\n", false, "a", "b")
 	add("todo-false:duplicate-tags", "services:\n  a:\n    value: \"V\"\n    todo: false\n    tags: [\"t\", \"t\"]\n", false, "a")
+	// one identifier may be used in several roles at once
+	add("same-identifier:field-and-call", "services:\n  svc:\n    value: \"V\"\n    fields: {Title: 1}\n    calls: [[\"Title\", [\"x\"]]]\n", true)
+	add("same-identifier:getter-and-field-and-call", "services:\n  svc:\n    value: \"V\"\n    getter: \"Name\"\n    fields: {Name: 1}\n    calls: [[\"Name\"]]\n", true)
+	add("same-identifier:service-tag-parameter", "parameters:\n  same: 1\nservices:\n  same:\n    constructor: \"New\"\n    arguments: [\"%same%\", \"!tagged same\"]\n    tags: [\"same\"]\n", false, "same") // requests its own tag: a cycle, not a grammar error
+	add("same-identifier:type-constructor-getter", "services:\n  svc:\n    constructor: \"Thing\"\n    type: \"Thing\"\n    getter: \"Thing\"\n", true)
+	add("same-identifier:two-calls-same-method", "services:\n  svc:\n    value: \"V\"\n    calls: [[\"Add\", [1]], [\"Add\", [1]], [\"Add\", [2], true]]\n", true)
+	add("same-identifier:alias-and-function", "meta:\n  imports: {x: \"my/x\"}\n  functions: {x: \"x.X\"}\nparameters:\n  x: \"%x()%\"\nservices:\n  x:\n    constructor: \"x.X\"\n    tags: [\"x\"]\n", true)
 	add("getter-incontext-suffix", "services:\n  svc:\n    value: \"V\"\n    getter: \"GetInContext\"\n", false, "svc")
 	add("getter-reserved", "services:\n  svc:\n    value: \"V\"\n    getter: \"GetParam\"\n", false, "svc")
 	add("getter-ok", "services:\n  svc:\n    value: \"V\"\n    getter: \"GetParam2\"\n", true)
